@@ -24,6 +24,38 @@ type c15Input struct {
 	Dirty bool   `json:"dirty"` // run the probe on the freshly built (unflushed, unreopened) store instead
 }
 
+// an in-memory StoreFile (nothing is left behind in the file system)
+type c15MemFile struct{ b []byte }
+
+func (f *c15MemFile) ReadAt(p []byte, off int64) (int, error) {
+	if off < 0 || off >= int64(len(f.b)) {
+		return 0, fmt.Errorf("EOF")
+	}
+	n := copy(p, f.b[off:])
+	if n < len(p) {
+		return n, fmt.Errorf("EOF")
+	}
+	return n, nil
+}
+func (f *c15MemFile) WriteAt(p []byte, off int64) (int, error) {
+	if need := int(off) + len(p); need > len(f.b) {
+		f.b = append(f.b, make([]byte, need-len(f.b))...)
+	}
+	copy(f.b[off:], p)
+	return len(p), nil
+}
+func (f *c15MemFile) Truncate(n int64) error     { f.b = f.b[:n]; return nil }
+func (f *c15MemFile) Stat() (os.FileInfo, error) { return c15Info{int64(len(f.b))}, nil }
+
+type c15Info struct{ n int64 }
+
+func (i c15Info) Name() string       { return "c15" }
+func (i c15Info) Size() int64        { return i.n }
+func (i c15Info) Mode() os.FileMode  { return 0600 }
+func (i c15Info) ModTime() time.Time { return time.Time{} }
+func (i c15Info) IsDir() bool        { return false }
+func (i c15Info) Sys() interface{}   { return nil }
+
 type c15Ledger struct {
 	cnt map[*Item]int
 	bad []string
@@ -83,12 +115,7 @@ func c15Run(in c15Input) (what string) {
 			what = fmt.Sprintf("panic: %v", r)
 		}
 	}()
-	f, err := os.CreateTemp("", "c15bounded")
-	if err != nil {
-		return "temp file: " + err.Error()
-	}
-	defer os.Remove(f.Name())
-	defer f.Close()
+	f := &c15MemFile{}
 	l := &c15Ledger{cnt: map[*Item]int{}}
 	s, err := NewStoreEx(f, l.callbacks())
 	if err != nil {
@@ -230,13 +257,7 @@ func c15Run(in c15Input) (what string) {
 			time.Sleep(time.Millisecond)
 		}
 	case "CopyTo":
-		g, err := os.CreateTemp("", "c15copy")
-		if err != nil {
-			return err.Error()
-		}
-		defer os.Remove(g.Name())
-		defer g.Close()
-		dst, err := s.CopyTo(g, 2)
+		dst, err := s.CopyTo(&c15MemFile{}, 2)
 		if err != nil {
 			return "CopyTo: " + err.Error()
 		}
